@@ -29,6 +29,14 @@ def rand_tree(r, depth):
     return (op, l, rt)
 
 
+def exactify(t):
+    """the same shape over + - * with small operands (every intermediate value stays exactly representable)"""
+    if not isinstance(t, tuple):
+        return t if isinstance(t, int) and -100 < t < 100 else 7
+    op = {"/": "*", "^": "+"}.get(t[0], t[0])
+    return (op, exactify(t[1]), exactify(t[2]))
+
+
 def floatify(t, r):
     """replace some integer leaves by decimal literals (kept as strings so that render prints them verbatim)"""
     if not isinstance(t, tuple):
@@ -85,12 +93,13 @@ def generate(tier, rng):
             continue
         cases.append(Case("calc", [hx(text), "c19", prefix(t)], {"gen": "g", "ops": nops(t), "t": prefix(t)}))
         if r.chance(1, 5):
-            # float mode: the same shape with one or more decimal literals, anywhere (also only inside parentheses); the value is
-            # not compared (IEEE), the MODE is: a line with a `.` is evaluated in floating point
-            ft = floatify(t, r)
+            # float mode on the exactly representable class (dyadic literals, + - * only): the printed value is compared, which
+            # makes the integer / floating-point MODE decision observable (`(1.5)+1` must print 2.5); decimals also only inside
+            # parentheses
+            ft = floatify(exactify(t), r)
             ftext = render(ft, r)
             if "." in ftext:
-                cases.append(Case("calc", [hx(ftext)], {"gen": "gf", "ops": nops(t), "t": "float " + ftext}))
+                cases.append(Case("calcf", [hx(ftext)], {"gen": "gf", "ops": nops(t), "t": "float " + ftext}))
         if r.chance(1, 10):
             cases.append(Case("head", [gens.EMPTY_ENV, hx(text)], {"gen": "g"}))
             cases.append(Case("tok", [hx(text)], {"gen": "g"}))
